@@ -268,8 +268,8 @@ struct ChModel {
 enum Expect { EX_NONE, EX_SILENT, EX_AT_LEAST_ONE, EX_EXACTLY_ONE };
 
 static const char *cmdname(int c) {
-  static const char *n[] = {"?", "add", "enable", "disable", "del", "peer_write", "drain", "peer_close", "sleep", "peer_shut_wr"};
-  return (c >= 0 && c <= 9) ? n[c] : "?";
+  static const char *n[] = {"?", "add", "enable", "disable", "del", "peer_write", "drain", "peer_close", "sleep", "peer_shut_wr", "reopen"};
+  return (c >= 0 && c <= 10) ? n[c] : "?";
 }
 
 static Verdict run_fire(const FireCase &c) {
@@ -311,6 +311,9 @@ static Verdict run_fire(const FireCase &c) {
     case E_DRAIN: if (c.kind[ch] == 1 || c.kind[ch] == 2) m[ch].pending = 0; break;
     case E_PEER_CLOSE: if (c.kind[ch] == 1 || c.kind[ch] == 2) m[ch].eof = true; break;
     case E_PEER_SHUT_WR: if (c.kind[ch] == 1) m[ch].eof = true; break;  // half close: the read side sees end of stream
+    case E_REOPEN:  // descriptor closed without a delete and reused: the kernel forgot the registration, the user record did not
+      if (c.kind[ch] == 1 || c.kind[ch] == 2) { m[ch].reg = false; m[ch].enabled = false; m[ch].pending = 0; m[ch].eof = false; }
+      break;
     default: break;
     }
     uint8_t wait = 0;
@@ -352,6 +355,7 @@ static Verdict run_fire(const FireCase &c) {
       int chx = cm.ch % C06_MAX_CH;
       if (cm.cmd == E_PEER_CLOSE && (c.kind[chx] == 1 || c.kind[chx] == 2)) eofm[chx].eof = true;
       if (cm.cmd == E_PEER_SHUT_WR && c.kind[chx] == 1) { eofm[chx].eof = true; label("half_close"); }
+      if (cm.cmd == E_REOPEN && (c.kind[chx] == 1 || c.kind[chx] == 2)) { eofm[chx].eof = false; label("descriptor_reused_with_stale_record"); }
       for (int j = 0; j < C06_MAX_CH; j++) {
         if (c.kind[j] == 0) continue;
         std::ostringstream tg;
@@ -364,7 +368,7 @@ static Verdict run_fire(const FireCase &c) {
           if (strong[i][j]) PBT_REQUIRE(s.fired_late[j] == s.fired_at_ret[j], tag << ": fired after disable/delete returned");
           else {
             // a drained persistent channel may have fired until the drain took effect (snapshot taken after a fence)
-            uint32_t base = (j == chx && cm.cmd == E_DRAIN) ? s.fired_at_ret[j] : prev[j];
+            uint32_t base = (j == chx && (cm.cmd == E_DRAIN || cm.cmd == E_REOPEN)) ? s.fired_at_ret[j] : prev[j];  // (a reopened one until the old descriptor was closed)
             PBT_REQUIRE(s.fired_late[j] == base, tag << ": fired although not registered/enabled or its condition does not hold");
           }
           break;
@@ -418,7 +422,7 @@ static rc::Gen<FireCase> genFire() {
       cm.ch = *range<int>(0, nch - 1);
       int kd = c.kind[cm.ch];
       cm.cmd = (kd == 3) ? *rc::gen::weightedElement<int>({{4, E_ADD}, {2, E_ENABLE}, {3, E_DISABLE}, {2, E_DEL}, {2, E_SLEEP}})
-                         : *rc::gen::weightedElement<int>({{4, E_ADD}, {2, E_ENABLE}, {3, E_DISABLE}, {2, E_DEL}, {4, E_PEER_WRITE}, {2, E_DRAIN}, {1, E_PEER_CLOSE}, {1, E_PEER_SHUT_WR}, {1, E_SLEEP}});
+                         : *rc::gen::weightedElement<int>({{4, E_ADD}, {2, E_ENABLE}, {3, E_DISABLE}, {2, E_DEL}, {4, E_PEER_WRITE}, {2, E_DRAIN}, {1, E_PEER_CLOSE}, {1, E_PEER_SHUT_WR}, {1, E_SLEEP}, {1, E_REOPEN}});
       cm.outside = *rc::gen::weightedElement<int>({{3, 0}, {1, 1}});
       cm.flags = *rc::gen::weightedElement<int>({{3, 0}, {2, F_ONESHOT}, {2, F_DISPATCH}});
       cm.arg = *range<int>(1, 30);
